@@ -50,6 +50,7 @@ type Contract struct {
 	Ats      map[string][]AtClause
 	Pure     bool
 	Trusted  string
+	DeadReturns map[int]string // returns that are unreachable under the contract (precondition or earlier checks), with the reason
 	Hides    []string // heap keys whose effects by this function are not reported to callers (assumption, with reason)
 	HidesWhy string
 	Props    []string
@@ -321,6 +322,25 @@ func parseClause(c *Contract, body, file string, ln int) error {
 				c.Modifies = append(c.Modifies, m)
 			}
 		}
+	case "dead":
+		// dead return N "reason": this return cannot be reached under the contract (excluded by a precondition, or dead
+		// code behind earlier checks); the per-return vacuity probe is not applied to it
+		f := strings.Fields(rest)
+		if len(f) < 2 || f[0] != "return" {
+			return fmt.Errorf("dead clause: expected `dead return N \"reason\"`")
+		}
+		n, err := strconv.Atoi(f[1])
+		if err != nil {
+			return fmt.Errorf("dead clause: bad ordinal %q", f[1])
+		}
+		if c.DeadReturns == nil {
+			c.DeadReturns = map[int]string{}
+		}
+		why := ""
+		if i := strings.Index(rest, "\""); i >= 0 {
+			why = strings.Trim(strings.TrimSpace(rest[i:]), "\"")
+		}
+		c.DeadReturns[n] = why
 	case "hides":
 		// hides <key>, <key> "reason": effects on these ghost keys are scoped to the callee (nested operations counted
 		// separately); callers see them unchanged. An assumption, reported as such.
